@@ -13,10 +13,10 @@ from common import hx, cps
 
 ID = "C06"
 LEAN_MODEL_TARGETS = ["drv_c06"]
-LEAN_PROOF_TARGETS = ["PyroProps.C06", "PyroProps.C06Ast"]
+LEAN_PROOF_TARGETS = ["PyroProps.C06", "PyroProps.C06Ast", "PyroProps.C06EncAst"]
 AUDIT_FILES = ["PyroModel/Bytes.lean", "PyroModel/Wire.lean", "PyroModel/SockIO.lean", "PyroModel/Gen/C06.lean", "PyroProofs/Wire.lean",
                "PyroProofs/WireStages.lean", "PyroProofs/WireReencode.lean", "PyroProps/C17.lean",
-               "PyroProps/C06.lean", "PyroModel/PyIR.lean", "PyroModel/C06AstRun.lean", "PyroProps/C06Ast.lean"]
+               "PyroProps/C06.lean", "PyroModel/PyIR.lean", "PyroModel/C06AstRun.lean", "PyroProps/C06Ast.lean", "PyroProps/C06EncAst.lean"]
 THEOREMS = ["Pyro.C06.C06_roundtrip", "Pyro.C06.C06_sender_limit", "Pyro.C06.C06_receiver_limit",
             "Pyro.C06.C06_accepts_only_wellformed", "Pyro.C06.C06_reencode", "Pyro.C06.C06_fragmentation",
             "Pyro.C06.C06_gen_facts", "Pyro.C06.C06_gen_conditions",
@@ -25,7 +25,11 @@ THEOREMS = ["Pyro.C06.C06_roundtrip", "Pyro.C06.C06_sender_limit", "Pyro.C06.C06
             # ... and so are ReceivingMessage.__init__ (header parsing, incl. the receiver-side size limit) and validate
             "Pyro.C06Ast.init_translated", "Pyro.C06Ast.validate_translated",
             # ... and assembled the way recv_stub calls them they are the model's recvStub; "accepts only well-formed" transferred
-            "Pyro.C06Ast.C06_source_recvStub", "Pyro.C06Ast.C06_source_accepts_only_wellformed"]
+            "Pyro.C06Ast.C06_source_recvStub", "Pyro.C06Ast.C06_source_accepts_only_wellformed",
+            # SendingMessage.__init__ transcribed from the source on every run = the model's encode, for all messages; the round
+            # trip and the sender's size limit stated about the two transcriptions
+            "Pyro.C06EncAst.sendInit_translated", "Pyro.C06EncAst.C06_source_send_outcomes", "Pyro.C06EncAst.C06_source_sender_limit",
+            "Pyro.C06EncAst.C06_source_roundtrip"]
 SUITES = ["encode", "decode"]
 RULE = ("messages generated field by field (boundary values of every 8/16/32-bit field, payload sizes swept across the "
         "100-byte compression threshold, 0-4 annotations incl. zero-length / memoryview / bytearray values, correlation id "
@@ -516,6 +520,17 @@ def _decode_suite(ctx, name, n, do_model):
         # ---- D: whatever is accepted is well formed and re-encodes to an equivalent message
         if rmsg is not None:
             _check_accepted(ctx, stream, rmsg, conn, case)
+            # ... also through the constructor itself: a "header" that is the accepted header plus stray bytes does not tile
+            if i % 5 == 0:
+                from Pyro5 import protocol as _p
+                for extra in (1, 7, 40):
+                    hb = stream[:40 + extra] if len(stream) >= 40 + extra else stream[:40] + bytes(extra)
+                    try:
+                        _p.ReceivingMessage(hb)
+                    except Exception:
+                        continue
+                    ctx.fail("accept-long-header", "ReceivingMessage(header) accepted a %d-byte header (40 header bytes + %d more)"
+                             % (len(hb), extra), dict(case, header=hb.hex()))
         if len(ctx.samples) < 6 and tag in ("assertion", "ok") and len(stream) < 90 and rng.random() < 0.1:
             ctx.sample({"decode": lines[-1], "real": out})
     if do_model:
@@ -532,6 +547,12 @@ def _check_accepted(ctx, stream, rmsg, conn, case):
     hdr = stream[:40]
     dsz = int.from_bytes(hdr[12:16], "big")
     asz = int.from_bytes(hdr[16:20], "big")
+    # the 40 bytes in front of an accepted message are a header: tag, protocol version and magic number as the sender writes them
+    # (Wire.parseHeader / C06_accepts_only_wellformed: an accepted stream starts with packHeader of the decoded fields)
+    if hdr[:4] != b"PYRO" or hdr[4:6] != (502).to_bytes(2, "big") or hdr[38:40] != (0x4dc5).to_bytes(2, "big"):
+        ctx.fail("accept-bad-header", "decoder accepted a message whose header has tag %r, version %d, magic 0x%04x"
+                 % (bytes(hdr[:4]), int.from_bytes(hdr[4:6], "big"), int.from_bytes(hdr[38:40], "big")), case)
+        return
     if used != 40 + asz + dsz:
         ctx.fail("accept-consumed", "accepted message consumed %d bytes, header declares %d" % (used, 40 + asz + dsz), case)
         return
